@@ -288,9 +288,15 @@ def run(shard, ctx):
         bpm = rng.choice([120, 60, 90, 133, 200])
         if fixed:
             kind, bpm = fixed[i][0], fixed[i][1]
-        seq, obs = Rec(), Obs()
-        seq.attach(obs)
-        w = {"kind": kind, "bpm": bpm}
+        if i and not fixed and rng.random() < 0.4:
+            # the sequencer and its observer of the previous playback are used again (nothing is sounding any more)
+            seq.log, obs.log = [], []
+            reused = True
+        else:
+            seq, obs = Rec(), Obs()
+            seq.attach(obs)
+            reused = False
+        w = {"kind": kind, "bpm": bpm, "sequencer_used_before": reused}
         if kind in ("note", "container"):
             notes = MM.random_notes(rng, size=1 if kind == "note" else None, lo=0, hi=110, same_channel=rng.random() < 0.5)
             nc = MM.build_notes(notes)
